@@ -47,6 +47,31 @@ CHECKS["C20"] = dict(
     note="Trusted: size accessors cache_size(), QueryHashCache::len(), HotTier::len(). Same bounds as C04.",
 )
 
+CHECKS["C06"] = dict(
+    engine="seqmc", category="model_checking", design_ref="DESIGN.md 3.6",
+    technique="exhaustive histories x dimension (SIMD tails) x metric x input scale, then every lattice query x k x ef x entry point, against an f64 brute-force oracle",
+    text="For every metric, dimension {3,9,17,33} (thorough: 1,3,7,8,9,15,16,17,33) and input scale (unit / un-normalised), all histories of the depth bound over inserts/overwrites/deletes/forced drain of ids 1-3, plus a 95 %-tombstone history and its continuation through tombstone compaction, are executed; after each, every lattice query x k {1,2,(3),1000} x ef {default,1,10000} goes through knn_search, knn_search_batch, HnswBackend::knn_search and knn_search_with_timeouts. Each answer must have <= k distinct live documents, true distances (f64 reference, 1e-4 relative), non-decreasing order, and contain every live recent-write-tier document strictly closer than the k-th result.",
+    note="Trusted: f64 brute force; alphabet vectors avoid the engine's [0.98,1.02] pass-through band. Collections <= 40 documents. Degraded timed responses are only checked for soundness.",
+)
+CHECKS["C11"] = dict(
+    engine="seqmc", category="model_checking", design_ref="DESIGN.md 3.11",
+    technique="exhaustive small-scope enumeration of filter trees x value classes x metadata histories against an independent reference evaluator",
+    text="(A) every filter tree of depth <= 2 over all leaves (Exact / In / Range with four operators and missing bound over 16 value classes incl. +-0, +-inf, NaN, '+1', ' 1', '', non-ASCII, 300 chars; empty forms) - thorough adds depth 3 over representative leaves - on a 17-document collection covering every class, fresh, after maintenance (overwrite/merge/replace/delete/re-insert), after forced tombstone compaction and after snapshot+recovery; (B) all histories up to the depth over three ids with capacity-3 index and restarts, all leaves + representative trees after each step; (C) all TieredEngine histories up to the depth (incl. bulk load bypassing the hot tier) followed by batch_delete_by_metadata_filter: exactly the matching set is removed and its size returned.",
+    note="Trusted: the independent reference evaluator (cross-checked against metadata_filter::matches on every (filter, metadata) pair: 0 disagreements). Depth 3 quick / 4 thorough for histories.",
+)
+CHECKS["C18"] = dict(
+    engine="seqmc", category="exploration", design_ref="DESIGN.md 3.18",
+    technique="exhaustive configuration matrix (full cross product of the safety-relevant settings x three delivery routes) through the real KyroDbConfig::load + validate against an independent safety predicate",
+    text="Every row of environment x fsync x snapshot interval {0,>0} x recovery mode x cache strategy x auth x rate limit x observability auth x fresh-start flag x TLS x bind host (31k rows quick, 84k thorough, plus a second remaining-settings variant) is delivered as TOML file, YAML file and KYRODB__ environment overrides; if load+validate accepts, the independent predicate transcribed from the property must call the row safe, and the three routes must agree. Accepted/rejected counts per environment are reported so the check is visibly not vacuous.",
+    note="Trusted: the safety predicate (incl. its notion of loopback). The 'server refuses to start' clause is covered by the real server main() being `load(...)?; validate()?` (exercised by the srvmc real-binary slice when built).",
+)
+CHECKS["C19"] = dict(
+    engine="seqmc", category="model_checking", design_ref="DESIGN.md 3.19",
+    technique="exhaustive enumeration of all (clock advance | call) sequences up to a depth on the real RateLimiter under a logical clock, against an exact integer token-bucket model plus an all-window bound",
+    text="All 5^depth sequences over {advance 1/4 s, 1 s, 10 s, call t1, call t2} for four (tenant rates, global rate) configurations run on the real RateLimiter with time served by kvshim's logical monotonic clock; every admit decision must equal an exact quarter-token integer model, every sub-window of every trace must satisfy admitted <= capacity + rate*length per tenant and globally, and a refusal by the global limit must leave the tenant's available tokens unchanged.",
+    note="Trusted: logical clock (dyadic steps keep the f64 implementation exact), the integer model. Depth 8 quick / 10 thorough. The concurrent clause is decided by schedmc (C19 concurrent section) once registered.",
+)
+
 # properties not claimed (yet): id -> reason
 NOT_APPLICABLE = {}
 
